@@ -42,3 +42,19 @@ package logformat
 //@ func (*csvParser).parseHeader
 //@   assigns p.header, p.hasHeader
 //@   ensures [header] p.hasHeader && join(p.header, ",") == maprLine && forall(i, 0, len(p.header), !contains(p.header[i], ","))
+
+// ---- generickv (C05) ----------------------------------------------------------------
+// A line is cut at "|"; every piece with an "=" is a field: the text before the
+// first "=" names it, everything after that "=" (further "=" included) is its
+// value; pieces without "=" are ignored.
+//@ define kvName(piece) == substr(piece, 0, indexOf(piece, "="))
+//@ define kvValue(piece) == substr(piece, indexOf(piece, "=") + 1, len(piece) - indexOf(piece, "=") - 1)
+//@ define kvOthersKept(fields, key) == forallStr(k, implies(k != key, has(fields, k) == prev(has(fields, k)) && implies(has(fields, k), fields[k] == prev(fields[k]))))
+//@ define kvAllKept(fields) == forallStr(k, has(fields, k) == prev(has(fields, k)) && implies(has(fields, k), fields[k] == prev(fields[k])))
+//@ define kvRound(fields, piece) == ite(contains(piece, "="), has(fields, kvName(piece)) && fields[kvName(piece)] == kvValue(piece) && kvOthersKept(fields, kvName(piece)), kvAllKept(fields))
+//@ func (*genericKVParser).MakeFields
+//@   assigns nothing
+//@   bind pieces == strings.Split@strings.Split(maprLine
+//@   at-call strings.Split@strings.Split(maprLine [the-line-at-the-field-delimiter] arg0 == old(maprLine) && arg1 == "|"
+//@   loop 1 step [one-field-per-piece] kvRound(fields, pieces[rangeindex])
+//@   ensures [never-fails] isnil(result1)
